@@ -18,7 +18,7 @@ func init() {
 			"(guarded-fields) for every repo struct with a mutex, every field that F writes is accessed in F only with that struct's mutex held (must-hold lockset dataflow, helper functions inherit the locks held at all their call sites); " +
 			"(unsynchronised-write) no write in F to an object that is not fresh (local allocation, synchronous closure variable, parameter fresh at every call site) without a mutex or sync/atomic; " +
 			"(atomic-counter) the request id counter is only touched through sync/atomic; (one-txn) every badger store method runs all its accesses in exactly one Update/View region and writes only in Update; " +
-			"(no-shared-bigint) no in-place big.Int mutation of a struct shallow-copied from shared state or returned by a balance getter; (no-block-under-lock) no channel operation, codec I/O, RPC call or handler dispatch while a mutex is held. Round 2: append through a slice loaded from a shallow copy of shared state is an unsynchronised write; no transaction inside a transaction closure.",
+			"(no-shared-bigint) no in-place big.Int mutation of a struct shallow-copied from shared state or returned by a balance getter; (no-block-under-lock) no channel operation, codec I/O, RPC call or handler dispatch while a mutex is held. Round 2: append through a slice loaded from a shallow copy of shared state is an unsynchronised write; no transaction inside a transaction closure. Round 5: (atomic-rmw) no atomic load/compute/store; shared pairing; (bigint-private); retry closures; library value types' pointer methods on field addresses are writes.",
 		NotDecided: []string{"not decided: serialisability of multi-call operations (Update = 4 store calls), lost updates from badger conflicts at run time, races inside third-party code"},
 	}
 }
